@@ -190,6 +190,8 @@ def vary(rng, tree, transform=True):
         elif t == 'blnoise':
             n.update(rolloff=rng.choice([1, 0.5]), pass_att=rng.choice([1, 2]), stop_att=rng.choice([80, 60]),
                      discard=rng.random() < 0.5)
+            if n['rolloff'] == 0.5:
+                n['stop_att'] = 60      # (half an octave and 80 dB: "Unstable filter coefficients", refused)
             if rng.random() < 0.4:
                 n.update(cal=True, level=60)
         elif t == 'firnoise':
@@ -556,6 +558,12 @@ class C01(Spec):
                 tree = make_tree(rng, cls)
                 if cls not in extra or i % 2:
                     tree = vary(rng, tree)
+                if cls == 'repeat' and i % 3 == 0:
+                    # period and delay at exact .5-sample ties (a repeat that no longer fits is refused by the single
+                    # request and by every chunking alike)
+                    period = int(round(tree['fs'] / tree['rate']))
+                    tree['rate'] = tree['fs'] / (period + 0.5)
+                    tree['delay'] = (int(round(tree['fs'] * tree['delay'])) + 0.5) / tree['fs']
                 n, marks = self.pick_n(rng, tree)
                 chunks = rng.chunks(n, 8) if rng.random() < 0.5 else S.boundary_chunks(rng, n, marks)
                 yield {'kind': 'factory', 'cls': cls, 'tree': tree, 'chunks': chunks, 'tag': 'var'}
@@ -599,6 +607,7 @@ class C01(Spec):
                     t2 = one_param_twin(rng, tree)
                     if t2 is not None:
                         c['twin'] = {'tree': t2, 'chunks': list(c['chunks'])}
+                        c['share'] = True       # equal `fixed` leaves below the changed node: one ndarray for both
                 if n_pristine and cls in ('gate', 'env', 'cos2', 'sam', 'sqenv', 'tone', 'fixed', 'notch') \
                         and rng.random() < 0.2:
                     c['pristine'] = True
